@@ -187,6 +187,26 @@ def scalars(env):
     return L
 
 
+GROUP = {"zero": "zero", "one": "one", "small": "small", "dig-edge": "small", "n-1": "n-ish", "n": "n-ish", "n+1": "n-ish",
+         "mult-n": "n-ish", "near-mult-n": "n-ish", "over": "over", "huge": "over"}
+
+
+def group(c):
+    """coarse scalar group used in the keys of two-scalar routines"""
+    if c.startswith("neg"):
+        return "neg"
+    return GROUP.get(c, "big")
+
+
+def kcls(c):
+    """key class of a scalar class: the sign pattern / axis index of GLS values stays in the description only"""
+    if c.startswith("gls-signs"):
+        return "gls-signs"
+    if c.startswith("gls-axis"):
+        return "gls-axis"
+    return c
+
+
 def rand_scalar(env):
     """random scalar with its class"""
     M, rng = env.M, env.rng
@@ -262,6 +282,8 @@ def run(ctx, part):
             return "small", rng.choice(small)[1]
         return "sub", M.G2
 
+    NAT = {"ep2_add_projc": "P", "ep2_add_jacob": "J", "ep2_add_basic": "A"}[R.target("ep2_add")]
+    ctx.note("native_projective_system", {part: NAT})
     case = [0]
 
     def mine():
@@ -276,6 +298,85 @@ def run(ctx, part):
             ctx.fail((ctx.cur_key or "?") + "|" + ex.kind, ex.detail)
         finally:
             ctx.end()
+
+    # ---- helpers shared by the multiplication sections (defined early: the fatal directed class runs first)
+    def in_range(k):
+        return 0 <= k < n
+
+    def pick_point(pcls):
+        """-> (Base, representation)"""
+        if pcls == "G":
+            return env.G, "A"
+        if pcls == "sub":
+            return rng.choice(S), "A"
+        if pcls == "subN":            # native projective system of this build (what ep2_add produces)
+            return rng.choice(S), NAT
+        if pcls == "tw":
+            return rng.choice(T), "A"
+        if pcls == "twN":
+            return rng.choice(T), NAT
+        if pcls == "small":
+            return epx.Base(E, rng.choice(small)[1]), "A"
+        return epx.Base(E, None), "A"
+
+    hostile_pairs = [("zero", 0), ("one", 1), ("small", 2), ("small", 3), ("n-1", n - 1), ("n", n), ("n+1", n + 1),
+                     ("near-mult-n", 2 * n + 3), ("neg-small", -1), ("neg-n", -n), ("neg", -rng.randrange(n)),
+                     ("pow2", 1 << (env.nb - 1)), ("fp-edge", (1 << env.FPB) - 1), ("over", n * n),
+                     ("rand", rng.randrange(n)), ("rand", rng.randrange(n))]
+
+    def trick_fatal(k):
+        """bn_rec_win(…, w = RLC_WIDTH / 2) is entered with k mod n; values shorter than w bits are its own class"""
+        return k != 0 and (k % n).bit_length() < max(1, K["RLC_WIDTH"] // 2)
+
+    def sim_case(fn, rel, kc, k, mc, m, alias=0, reps="AA"):
+        def body():
+            if not (env.fits(k) and env.fits(m)):
+                return
+            bp = rng.choice(S + [env.G])
+            P = bp.P
+            if rel == "gen":
+                bq = rng.choice([b for b in S + [env.G] if b is not bp])
+            elif rel == "P=Q":
+                bq = bp
+            elif rel == "P=-Q":
+                bq = epx.Base(E, E.neg(P), n)
+            elif rel == "infP":
+                bq, bp = bp, epx.Base(E, None)
+            elif rel == "infQ":
+                bq = epx.Base(E, None)
+            else:
+                bp = bq = epx.Base(E, None)
+            g0, g1 = sorted((group(kc), group(mc)))
+            key = "%s|%s|%s,%s%s%s" % (fn, rel, g0, g1, "" if reps == "AA" else "|proj", "|alias" if alias else "")
+            if fn == "ep2_mul_sim_trick" and bp.P is not None and bq.P is not None and (trick_fatal(k) or trick_fatal(m)):
+                key = "ep2_mul_sim_trick|short-window"
+            da = env.wr(A, bp.P, NAT if reps[0] == "N" else "A")
+            db = env.wr(B, bq.P, NAT if reps[1] == "N" else "A")
+            env.setk(env.k, k)
+            env.setk(env.m, m)
+            if not ctx.begin(key, {"P": pd(bp.P), "Q": pd(bq.P), "a": da, "b": db, "k": hx(k), "m": hx(m),
+                                   "kclass": [kc, mc], "alias": alias}, nontrivial=not (bp.P is None and bq.P is None)):
+                return
+            e.poison(C)
+            out = {0: C, 1: A, 2: B}[alias]
+            sa, sb = env.snap(A), env.snap(B)
+            res = R.call(fn, out, A, env.k, B, env.m)
+            env.judge(out, E.add(bp.mul(k), bq.mul(m)), res, in_range=in_range(k) and in_range(m), norm=True)
+            if out != A:
+                env.unchanged(A, sa)
+            if out != B:
+                env.unchanged(B, sb)
+        guard(body)
+
+    def trick_directed():
+        """k or m congruent to 0 or 1 modulo n: directed only (fatal on a tree where bn_rec_win underflows); one key, so
+        that after a sanitizer report the remaining ones are skipped; executed first, by shard 0"""
+        for kc, k, mc, m in (("one", 1, "rand", rng.randrange(2, n)), ("rand", rng.randrange(2, n), "n+1", n + 1),
+                             ("n", n, "rand", rng.randrange(2, n)), ("one", 1, "one", 1)):
+            sim_case("ep2_mul_sim_trick", "gen", kc, k, mc, m)
+
+    if ctx.shard == 0 and has("ep2_mul_sim_trick"):
+        trick_directed()
 
     # =========================================================================== group law
     def native(fn):
@@ -394,12 +495,12 @@ def run(ctx, part):
                 for inf in (False, True):
                     if mine():
                         dbl_case(fn, ra, alias, inf)
-    for _ in range(ctx.n(160, 6000)):
+    for _ in range(ctx.n(480, 6000)):
         fn = rng.choice(addfns)
         tg = tags_for(fn)
         add_case(fn, rng.choice(["gen", "gen", "gen", "eq", "opp", "infP", "infQ", "infPQ"]), rng.choice(tg), rng.choice(tg),
                  rng.randrange(5))
-    for _ in range(ctx.n(60, 2000)):
+    for _ in range(ctx.n(180, 2000)):
         fn = rng.choice(dblfns)
         dbl_case(fn, rng.choice(tags_for(fn.replace("dbl", "add"))), rng.randrange(2), rng.random() < 0.1)
 
@@ -431,7 +532,7 @@ def run(ctx, part):
                 for inf in (False, True):
                     if mine():
                         unary_case(fn, ra, alias, inf)
-    for _ in range(ctx.n(45, 1500)):
+    for _ in range(ctx.n(135, 1500)):
         unary_case(rng.choice(["ep2_neg", "ep2_norm"]), rng.choice("APJ"), rng.randrange(2), rng.random() < 0.1)
 
     def norm_sim_case(cnt, inplace, with_inf):
@@ -476,7 +577,7 @@ def run(ctx, part):
                     norm_sim_case(cnt, inplace, False)
         if mine():
             norm_sim_case(3, 0, True)
-        for _ in range(ctx.n(12, 400)):
+        for _ in range(ctx.n(36, 400)):
             norm_sim_case(rng.randrange(1, 9), rng.randrange(2), False)
 
     def cmp_case(rel, ra, rb):
@@ -511,7 +612,7 @@ def run(ctx, part):
             for rb in "APJ":
                 if mine():
                     cmp_case(rel, ra, rb)
-    for _ in range(ctx.n(40, 1500)):
+    for _ in range(ctx.n(120, 1500)):
         cmp_case(rng.choice(["eq", "eq", "opp", "ne", "inf-fin", "fin-inf", "inf-inf"]), rng.choice("APJ"), rng.choice("APJ"))
 
     def oncurve_case(kind, ra):
@@ -540,32 +641,11 @@ def run(ctx, part):
         for ra in "APJ":
             if mine():
                 oncurve_case(kind, ra)
-    for _ in range(ctx.n(30, 1000)):
+    for _ in range(ctx.n(90, 1000)):
         oncurve_case(rng.choice(["on", "off-y", "off-x"]), rng.choice("APJ"))
 
     # =========================================================================== scalar multiplication
     SC = scalars(env)
-
-    def in_range(k):
-        return 0 <= k < n
-
-    def pick_point(pcls):
-        """-> (Base, representation)"""
-        if pcls == "G":
-            return env.G, "A"
-        if pcls == "sub":
-            return rng.choice(S), "A"
-        if pcls == "subP":
-            return rng.choice(S), "P"
-        if pcls == "subJ":
-            return rng.choice(S), "J"
-        if pcls == "tw":
-            return rng.choice(T), "A"
-        if pcls == "twP":
-            return rng.choice(T), "P"
-        if pcls == "small":
-            return epx.Base(E, rng.choice(small)[1]), "A"
-        return epx.Base(E, None), "A"
 
     SUBONLY = ("ep2_mul_monty", "ep2_mul_lwnaf", "ep2_mul_lwreg", "ep2_mul")
 
@@ -574,10 +654,11 @@ def run(ctx, part):
             if not env.fits(k):
                 return
             base, rep = pick_point(pcls)
-            key = "%s|%s|%s%s" % (fn, scls, pcls, "|alias" if alias else "")
+            key = "%s|%s|%s%s" % (fn, kcls(scls), "sub" if pcls == "G" else pcls, "|alias" if alias else "")
             da = env.wr(A, base.P, rep)
             env.setk(env.k, k)
-            if not ctx.begin(key, {"P": pd(base.P), "a": da, "k": hx(k)}, nontrivial=base.P is not None and k != 0):
+            if not ctx.begin(key, {"P": pd(base.P), "a": da, "k": hx(k), "kclass": scls, "pclass": pcls},
+                             nontrivial=base.P is not None and k != 0):
                 return
             e.poison(C)
             out = A if alias else C
@@ -595,11 +676,14 @@ def run(ctx, part):
         for i, (scls, k) in enumerate(SC):
             if mine():
                 mul_case(fn, scls, k, "G" if i % 2 == 0 else "sub")
-        pcl = ["inf", "subP", "subJ"] + ([] if fn in SUBONLY else ["tw", "twP"] + (["small"] if small else []))
+        # points of small order: only the plain double-and-add routines that the cofactor map and the membership
+        # tests apply to arbitrary curve points (window tables of such points contain the identity)
+        pcl = ["inf", "subN"] + ([] if fn in SUBONLY else ["tw", "twN"] +
+                                 (["small"] if small and fn in ("ep2_mul_basic", "ep2_mul_big") else []))
         for pcls in pcl:
             for scls, k in (("zero", 0), ("one", 1), ("small", 3), ("n-1", n - 1), ("n", n), ("neg-small", -2),
                             ("rand", rng.randrange(n)), ("over", n * n + 5)):
-                if pcls in ("tw", "twP", "small") and abs(k) > (1 << (env.nb + 2)):
+                if pcls in ("tw", "twN", "small") and abs(k) > (1 << (env.nb + 2)):
                     continue
                 if mine():
                     mul_case(fn, scls, k, pcls)
@@ -607,10 +691,10 @@ def run(ctx, part):
             mul_case(fn, "rand", rng.randrange(n), "sub", alias=1)
         if mine():
             mul_case(fn, "neg", -rng.randrange(n), "G", alias=1)
-    for _ in range(ctx.n(170, 6000)):
+    for _ in range(ctx.n(510, 6000)):
         fn = rng.choice(mulfns)
         scls, k = rand_scalar(env)
-        pcls = rng.choice(["G", "sub", "sub", "subP", "subJ"] + ([] if fn in SUBONLY else ["tw", "tw", "twP"]))
+        pcls = rng.choice(["G", "sub", "sub", "subN", "subN"] + ([] if fn in SUBONLY else ["tw", "tw", "twN"]))
         mul_case(fn, scls, k, pcls, alias=int(rng.random() < 0.2))
 
     # ---- generator, digit
@@ -618,9 +702,9 @@ def run(ctx, part):
         def body():
             if not env.fits(k):
                 return
-            key = "ep2_mul_gen|%s" % scls
+            key = "ep2_mul_gen|%s" % kcls(scls)
             env.setk(env.k, k)
-            if not ctx.begin(key, {"k": hx(k)}, nontrivial=k != 0):
+            if not ctx.begin(key, {"k": hx(k), "kclass": scls}, nontrivial=k != 0):
                 return
             e.poison(C)
             res = R.call("ep2_mul_gen", C, env.k)
@@ -631,7 +715,7 @@ def run(ctx, part):
         for scls, k in SC:
             if mine():
                 gen_case(scls, k)
-        for _ in range(ctx.n(25, 800)):
+        for _ in range(ctx.n(75, 800)):
             gen_case(*rand_scalar(env))
 
     def dig_case(d, pcls, alias=0):
@@ -653,11 +737,11 @@ def run(ctx, part):
 
     if has("ep2_mul_dig"):
         for d in (0, 1, 2, 3, 0xFFFF, 1 << 32, 1 << 63, (1 << 64) - 1, (1 << 63) + 1, 0xAAAAAAAAAAAAAAAA):
-            for pcls in ("G", "sub", "subP", "tw", "inf"):
+            for pcls in ("G", "sub", "subN", "tw", "inf"):
                 if mine():
                     dig_case(d, pcls)
-        for _ in range(ctx.n(25, 800)):
-            dig_case(rng.getrandbits(rng.choice([3, 17, 64, 64])), rng.choice(["G", "sub", "subP", "subJ", "tw", "twP"]),
+        for _ in range(ctx.n(75, 800)):
+            dig_case(rng.getrandbits(rng.choice([3, 17, 64, 64])), rng.choice(["G", "sub", "subN", "subN", "tw", "twN"]),
                      int(rng.random() < 0.2))
 
     # =========================================================================== fixed base
@@ -689,9 +773,10 @@ def run(ctx, part):
                 def body(scls=scls, k=k):
                     if not env.fits(k):
                         return
-                    key = "%s|%s|%s" % (fix, scls, pcls)
+                    key = "%s|%s|%s" % (fix, kcls(scls), pcls)
                     env.setk(env.k, k)
-                    if not ctx.begin(key, {"P": pd(base.P), "k": hx(k)}, nontrivial=base.P is not None and k != 0):
+                    if not ctx.begin(key, {"P": pd(base.P), "k": hx(k), "kclass": scls},
+                                     nontrivial=base.P is not None and k != 0):
                         return
                     e.poison(C)
                     res = R.call(fix, C, tab, env.k)
@@ -705,61 +790,13 @@ def run(ctx, part):
         # the hostile list is split over the shards; every shard builds its own table
         mineSC = [sc for i, sc in enumerate(SC) if ctx.mine(i + fi)]
         fi += 1
-        fix_family(v, env.G, "G", mineSC + [rand_scalar(env) for _ in range(ctx.n(6, 300))])
+        fix_family(v, env.G, "G", mineSC + [rand_scalar(env) for _ in range(ctx.n(18, 300))])
         fix_family(v, rng.choice(S), "sub", [sc for i, sc in enumerate(SC) if ctx.mine(i + fi + 2) and i % 3 == 0] +
-                   [rand_scalar(env) for _ in range(ctx.n(6, 300))])
+                   [rand_scalar(env) for _ in range(ctx.n(18, 300))])
         if ctx.mine(fi):
             fix_family(v, epx.Base(E, None), "inf", [("zero", 0), ("one", 1), ("rand", rng.randrange(n))])
 
     # =========================================================================== simultaneous
-    hostile_pairs = [("zero", 0), ("one", 1), ("small", 2), ("small", 3), ("n-1", n - 1), ("n", n), ("n+1", n + 1),
-                     ("near-mult-n", 2 * n + 3), ("neg-small", -1), ("neg-n", -n), ("neg", -rng.randrange(n)),
-                     ("pow2", 1 << (env.nb - 1)), ("fp-edge", (1 << env.FPB) - 1), ("over", n * n),
-                     ("rand", rng.randrange(n)), ("rand", rng.randrange(n))]
-
-    def trick_fatal(k):
-        """bn_rec_win(…, w = RLC_WIDTH / 2) is entered with k mod n; values shorter than w bits are its own class"""
-        return k != 0 and (k % n).bit_length() < max(1, K["RLC_WIDTH"] // 2)
-
-    def sim_case(fn, rel, kc, k, mc, m, alias=0, reps="AA"):
-        def body():
-            if not (env.fits(k) and env.fits(m)):
-                return
-            bp = rng.choice(S + [env.G])
-            P = bp.P
-            if rel == "gen":
-                bq = rng.choice([b for b in S + [env.G] if b is not bp])
-            elif rel == "P=Q":
-                bq = bp
-            elif rel == "P=-Q":
-                bq = epx.Base(E, E.neg(P), n)
-            elif rel == "infP":
-                bq, bp = bp, epx.Base(E, None)
-            elif rel == "infQ":
-                bq = epx.Base(E, None)
-            else:
-                bp = bq = epx.Base(E, None)
-            tcls = ""
-            if fn in ("ep2_mul_sim_trick",) and bp.P is not None and bq.P is not None and (trick_fatal(k) or trick_fatal(m)):
-                tcls = "|short-window"
-            key = "%s|%s|%s,%s%s|%s%s" % (fn, rel, kc, mc, tcls, reps, "|alias%d" % alias if alias else "")
-            da, db = env.wr(A, bp.P, reps[0]), env.wr(B, bq.P, reps[1])
-            env.setk(env.k, k)
-            env.setk(env.m, m)
-            if not ctx.begin(key, {"P": pd(bp.P), "Q": pd(bq.P), "a": da, "b": db, "k": hx(k), "m": hx(m)},
-                             nontrivial=not (bp.P is None and bq.P is None)):
-                return
-            e.poison(C)
-            out = {0: C, 1: A, 2: B}[alias]
-            sa, sb = env.snap(A), env.snap(B)
-            res = R.call(fn, out, A, env.k, B, env.m)
-            env.judge(out, E.add(bp.mul(k), bq.mul(m)), res, in_range=in_range(k) and in_range(m), norm=True)
-            if out != A:
-                env.unchanged(A, sa)
-            if out != B:
-                env.unchanged(B, sb)
-        guard(body)
-
     simfns = [f for f in ("ep2_mul_sim_basic", "ep2_mul_sim_trick", "ep2_mul_sim_inter", "ep2_mul_sim_joint", "ep2_mul_sim")
               if has(f)]
     for fn in simfns:
@@ -776,32 +813,27 @@ def run(ctx, part):
                                  ("zero", 0, "rand", rng.randrange(n)), ("n-1", n - 1, "small", 2)):
                 if mine():
                     sim_case(fn, rel, kc, k, mc, m)
-        for reps in ("PA", "AP", "PP", "JJ"):
+        for reps in ("NA", "AN", "NN"):
             if mine():
                 sim_case(fn, "gen", "rand", rng.randrange(n), "rand", rng.randrange(n), reps=reps)
         for alias in (1, 2):
             if mine():
                 sim_case(fn, "gen", "rand", rng.randrange(n), "rand", rng.randrange(n), alias=alias)
-    if "ep2_mul_sim_trick" in simfns:
-        for kc, k, mc, m in (("one", 1, "rand", rng.randrange(2, n)), ("rand", rng.randrange(2, n), "one", 1),
-                             ("n", n, "rand", rng.randrange(2, n)), ("n+1", n + 1, "small", 3), ("one", 1, "one", 1)):
-            if mine():
-                sim_case("ep2_mul_sim_trick", "gen", kc, k, mc, m)
-    for _ in range(ctx.n(110, 4000)):
+    for _ in range(ctx.n(330, 4000)):
         fn = rng.choice(simfns)
         kc, k = rand_scalar(env)
         mc, m = rand_scalar(env)
         if fn == "ep2_mul_sim_trick" and (trick_fatal(k) or trick_fatal(m)):
             continue
         sim_case(fn, rng.choice(["gen"] * 6 + ["P=Q", "P=-Q", "infP", "infQ"]), kc, k, mc, m, alias=rng.choice([0, 0, 0, 1, 2]),
-                 reps=rng.choice(["AA", "AA", "AA", "PA", "AP", "PP"]))
+                 reps=rng.choice(["AA", "AA", "AA", "NA", "AN", "NN"]))
 
     def simgen_case(kc, k, mc, m, qcls="sub"):
         def body():
             if not (env.fits(k) and env.fits(m)):
                 return
             bq, rep = pick_point(qcls)
-            key = "ep2_mul_sim_gen|%s,%s|%s" % (kc, mc, qcls)
+            key = "ep2_mul_sim_gen|%s,%s|%s" % (group(kc), group(mc), "sub" if qcls == "G" else qcls)
             db = env.wr(B, bq.P, rep)
             env.setk(env.k, k)
             env.setk(env.m, m)
@@ -820,18 +852,18 @@ def run(ctx, part):
                 mc, m = hostile_pairs[(i + j) % len(hostile_pairs)]
                 if mine():
                     simgen_case(kc, k, mc, m)
-        for qcls in ("inf", "G", "subP"):
+        for qcls in ("inf", "G", "subN"):
             if mine():
                 simgen_case("rand", rng.randrange(n), "rand", rng.randrange(n), qcls)
-        for _ in range(ctx.n(20, 800)):
+        for _ in range(ctx.n(60, 800)):
             kc, k = rand_scalar(env)
             mc, m = rand_scalar(env)
-            simgen_case(kc, k, mc, m, rng.choice(["sub", "sub", "G", "subP"]))
+            simgen_case(kc, k, mc, m, rng.choice(["sub", "sub", "G", "subN"]))
 
     def simdig_case(cnt, special=None):
         def body():
             bases = [rng.choice(S + [env.G] + T) for _ in range(cnt)]
-            reps = [rng.choice("AAP") for _ in range(cnt)]
+            reps = [rng.choice(["A", "A", NAT]) for _ in range(cnt)]
             ds = [rng.choice([0, 1, (1 << 64) - 1, rng.getrandbits(64), rng.getrandbits(64), rng.getrandbits(12)])
                   for _ in range(cnt)]
             if special == "all-zero":
@@ -870,7 +902,7 @@ def run(ctx, part):
             for sp in (None, "all-zero", "same-point", "with-inf"):
                 if mine():
                     simdig_case(cnt, sp)
-        for _ in range(ctx.n(15, 500)):
+        for _ in range(ctx.n(45, 500)):
             simdig_case(rng.randrange(1, 7))
 
     def simlot_case(cnt, special=None):
@@ -929,7 +961,7 @@ def run(ctx, part):
             for sp in ("hostile", "same-point", "cancel", "with-inf", "zero-scalar"):
                 if mine():
                     simlot_case(cnt, sp)
-        for _ in range(ctx.n(4, 200)):
+        for _ in range(ctx.n(12, 200)):
             simlot_case(rng.choice([1, 2, 3, 5, 9, 10, 11, 13]), rng.choice([None, None, "hostile"]))
 
     # =========================================================================== Frobenius
@@ -996,9 +1028,9 @@ def run(ctx, part):
                 frb_tw_case(rep)
         if small and mine():
             frb_tw_case("A", "small")
-        for _ in range(ctx.n(40, 1200)):
+        for _ in range(ctx.n(120, 1200)):
             frb_sub_case(rng.choice([1, 1, 2, 2, 3, 3, 4, 5, 7]), rng.choice("AAPJ"), int(rng.random() < 0.2))
-        for _ in range(ctx.n(6, 200)):
+        for _ in range(ctx.n(18, 200)):
             T.append(epx.Base(E, M.rand_point2(rng)))
             frb_tw_case(rng.choice("AAP"))
         # infinity
@@ -1078,15 +1110,15 @@ def run(ctx, part):
 
     if has("ep2_mul_cof"):
         for pcls in ["tw", "tw", "sub", "inf"] + (["small", "small+sub"] if small else []):
-            for rep in "AP":
+            for rep in ("A", NAT):
                 if mine():
                     cof_case(pcls, rep)
         if mine():
             cof_case("tw", "A", alias=1)
-        for _ in range(ctx.n(14, 500)):
-            cof_case(rng.choice(["tw", "tw", "tw", "sub"] + (["small", "small+sub"] if small else [])), rng.choice("AAP"),
+        for _ in range(ctx.n(42, 500)):
+            cof_case(rng.choice(["tw", "tw", "tw", "sub"] + (["small", "small+sub"] if small else [])), rng.choice(["A", "A", NAT]),
                      int(rng.random() < 0.15))
-        for _ in range(ctx.n(3, 100)):
+        for _ in range(ctx.n(9, 100)):
             cof_hom_case()
 
     ctx.note("functions_exercised", sorted(R.fn_seen))
